@@ -29,9 +29,13 @@ CFG = {
                   "(every directed edge once, its reverse once) proved parametrically for EVERY rows >= 2, columns >= 3, "
                   "sides >= 3 (explicit twin involution on edge slots; no size bound); over the reals, for the WHOLE index "
                   "list with the generators' position formulas: cylinder volume = inscribed prism n*(r^2 sin(2pi/n)/2)*h, below, monotone in n and "
-                  "converging to pi r^2 h, sphere / hemisphere volume as a closed finite sum over the rings, positive, every face "
+                  "converging to pi r^2 h with error <= 2pi^2/(3n^2) relative; sphere volume in closed form "
+                  "c sin(2pi/c)(1+cos(pi/r))/3 r^3 and hemisphere volume in closed form (the ring sums telescope), both below the "
+                  "analytic volume by at most pi^3 r^3 O(1/c^2 + 1/r^2) (explicit constants), sphere monotone in rows and columns, "
+                  "both converging to 4/3 pi r^3 / 2/3 pi r^3 however rows and columns grow; positive, every face "
                   "outward; both boxes: exact volume w*h*d, outward faces and vertex normals, coincidence classes derived from the "
-                  "real positions; the models are tied to "
+                  "real positions; the welded box's triangle table is TRANSLATED from cube.go on every run (tools/tab2coq) and "
+                  "closed / well-formed / volume / outward / normals are re-proved on the translated table; the models are tied to "
                   "the Go constructors on every run (index lists and position-coincidence classes compared exactly, "
                   "closedness re-decided on the implementation's own output by the verified checker)",
     "level_note": "Trusted: Coq kernel + vm_compute (the case evaluator also uses the kernel's 63-bit machine integers for "
@@ -39,9 +43,12 @@ CFG = {
                   "differential correspondence (index lists, coincidence classes); the real-valued position functions of sphere / "
                   "hemisphere / cylinder are hand copies of the Go formulas and the float positions are not modelled: the "
                   "implementation's volume (vs the same closed forms), outwardness, vertex normals and convergence are checked "
-                  "numerically by the harness on every run; convergence of the sphere / hemisphere volumes is not proved (cylinder: below, monotone, converging)",
-    "technique": "Coq proof (verified edge-pairing checker, involution on edge slots, exact polynomial identities) + "
-                 "vm_compute correspondence check + float oracle",
+                  "numerically by the harness on every run; translator tools/tab2coq (integer table literal -> list Z) for the "
+                  "cube table; the index LOOPS are not bound by translation (behaviour-preserving loop rewrites such as "
+                  "harmless/C18-R2 would break a proof-level binding): they stay hand models compared exactly on every run; "
+                  "the generator nodes (defaults, clamping) are not modelled: their results are judged by the property alone",
+    "technique": "Coq proof (verified edge-pairing checker, involution on edge slots, exact polynomial / trigonometric identities, "
+                 "Taylor bounds) + table translation Go -> Gallina + vm_compute correspondence check + float oracle",
     "design_ref": "DESIGN.md §4 C18",
     "n_quick": 60, "n_thorough": 400,
     "rule": "(rows, cols) in 2..24 x 3..24 for UVSphere, UVSphereUnwelded, Hemisphere.UV: thorough = every pair with full "
@@ -53,7 +60,15 @@ CFG = {
             "genuinely large counts at and just above 2^14, 2^15, 2^16 vertices for sphere/unwelded/hemisphere in square, "
             "many-rows and many-columns shapes and cylinders with 2^12..2^16 sides (fingerprints of index and class lists vs the "
             "model + harness oracles; quick: one shape per family and size, thorough: all shapes and the last size below each power of two); "
-            "Cone (a lateral surface without base, not one of the solids) is only recorded); distinct by "
+            "Cone (a lateral surface without base, not one of the solids) is only recorded); round 4: every family at sizes "
+            "2^40 and 2^-40 and at 1e-9..1e9 in decades, cylinders / boxes with ratios up to 2^12 between any two dimensions "
+            "(merge tolerance per axis), planks with an edge > 8x another one on every axis (exact and fractional), partial "
+            "cube UV sets, UnitCube, the generator nodes UvSphereNode / HemisphereNode / CylinderNode / CubeNode with explicit "
+            "inputs (judged like the constructor), with all inputs unconnected and with counts below the minimum (judged by the "
+            "property alone), counts a constructor accepts although the model rejects them (judged by the property), "
+            "Cylinder without caps and Circle / Quad on their own (recorded only), 1/5 of the sampled stream scaled or "
+            "node-wrapped; closedness after merging is decided in Go on every case and re-decided by the verified checker "
+            "wherever the lists are written out; distinct by "
             "parameters; non-trivial = the constructor returned at least one triangle",
     "trusted": ["positions of sphere/cylinder/hemisphere are math.Sin/Cos values: signed volume vs the inscribed "
                 "polyhedron's closed-form volume (1e-9 relative), face orientation against an interior point, vertex "
@@ -61,7 +76,7 @@ CFG = {
                 "float64 by the harness",
                 "coincident positions are identified by the harness: exact equality for spheres/hemisphere/welded box; "
                 "the cylinder seam + rotated bottom cap and the six rotated quads coincide only within rounding and are "
-                "merged within 1e-9 relative to the smallest size (checked insensitive to a 100x coarser tolerance)"],
+                "merged within 1e-9 of the extent of the result along each axis (checked insensitive to a 100x coarser tolerance)"],
     "modelled": ["Mesh.Append index shifting (modelled as list append with offset, checked by the correspondence)",
                  "quaternion rotations by multiples of pi/2 in Cube.UnweldedQuads are replaced by the exact maps they "
                  "stand for; the harness rounds the float corners (error < 1e-9 checked) before the exact comparison"],
